@@ -5,7 +5,7 @@ from . import mir, sym, model
 from .sym import IntV, Agg, Enum, Ref, Buffer, Slice, Opaque, UNIT, bv
 
 VERIF = os.path.dirname(os.path.dirname(os.path.dirname(os.path.abspath(__file__))))
-REPO = "/repo"
+REPO = os.environ.get("VERIF_TEST_REPO_OVERRIDE", "/repo")   # override is for manual experiments only; checks always use /repo
 
 
 def dump_mir():
@@ -82,10 +82,33 @@ class Result:
         self.obligations.append(dict(name=name, status=status, detail=detail, model=mdl))
 
 
+class Portfolio:
+    """ackermannize+bit-blast tactic first (fast on QF_UFBV with address arithmetic), z3's default solver as fallback"""
+
+    def __init__(self):
+        self.t = z3.Then("simplify", "solve-eqs", "ackermannize_bv", "bit-blast", "sat").solver()
+        self.t.set("timeout", 30000)
+        self.d = z3.Solver()
+        self.d.set("timeout", 90000)
+        self.last = None
+
+    def check(self, *cs):
+        try:
+            r = self.t.check(*cs)
+        except z3.Z3Exception:
+            r = z3.unknown
+        self.last = self.t
+        if r == z3.unknown:
+            r = self.d.check(*cs)
+            self.last = self.d
+        return r
+
+    def model(self):
+        return self.last.model()
+
+
 def new_solver():
-    s = z3.Solver()
-    s.set("timeout", 60000)
-    return s
+    return Portfolio()
 
 
 def valid(res, solver, pc, claim):
@@ -679,8 +702,9 @@ def lemma_L5(prog, res):
         e_phoff, e_shoff = ehdr.f[8].e, ehdr.f[9].e
         e_phentsize, e_phnum, e_shentsize, e_shnum = ehdr.f[12].e, ehdr.f[13].e, ehdr.f[14].e, ehdr.f[15].e
         suffix = "32" if is32 else "64"
-        sh0_size = model.F(f"SectionHeader.sh_size@{suffix}", model.BV64, z3.BitVecSort(64))(e_shoff)
-        sh0_info = model.F(f"SectionHeader.sh_info@{suffix}", model.BV64, z3.BitVecSort(32))(e_shoff)
+        ci_ = 0 if is32 else 1
+        sh0_size = model.field_term("SectionHeader", 5, ci_, e_shoff, 64)
+        sh0_info = model.field_term("SectionHeader", 7, ci_, e_shoff, 32)
         z16 = lambda x: z3.ZeroExt(48, x)
         shnum = z3.If(e_shnum == 0, sh0_size, z16(e_shnum))
         phnum = z3.If(e_phnum == 0xffff, z3.ZeroExt(32, sh0_info), z16(e_phnum))
@@ -731,10 +755,11 @@ def table_state(ctx, cls, with_sections, with_segments):
             st[nm] = None
             continue
         off = z3.BitVec(f"tab.{nm}off", 64)
-        n = z3.BitVec(f"tab.{nm}num", 64)
-        ctx.assume(z3.And(z3.UGE(n, bv(1)), z3.ULE(n, bv(K_TABLE))))
-        ctx.assume(z3.And(z3.ULE(off, fl), z3.ULE(n * es, fl - off), off != 0))
-        st[nm] = Slice(ctx.env["file"], off, n * es)
+        # the number of entries is enumerated (1..K) by the decision mechanism: a concrete count keeps every size a constant
+        nvar = z3.BitVec(f"tab.{nm}num", 64)
+        k = ctx.choose([(f"{nm}num={i + 1}", nvar == i + 1) for i in range(K_TABLE)]) + 1
+        ctx.assume(z3.And(z3.ULE(off, fl), z3.ULE(bv(k * es), fl - off), off != 0))
+        st[nm] = Slice(ctx.env["file"], off, bv(k * es))
     return st
 
 
@@ -790,9 +815,7 @@ def no_compressed_sections(cls):
             return z3.BoolVal(True)
         ci = 0 if cls == "ELF32" else 1
         es = model.CLASS_SIZES["SectionHeader"][ci]
-        w = 64
-        f = model.F(f"SectionHeader.sh_flags@{'32' if ci == 0 else '64'}", model.BV64, z3.BitVecSort(w))
-        return z3.And([(f(st["sh"].file_pos() + bv(i * es)) & 0x800) == 0 for i in range(K_TABLE)])
+        return z3.And([(model.field_term("SectionHeader", 2, ci, st["sh"].file_pos() + bv(i * es), 64) & 0x800) == 0 for i in range(K_TABLE)])
     return scope
 
 
@@ -883,3 +906,348 @@ def lemma_L7(prog, res, classes=("ELF64",)):
                             res.add(f"C17.cache_inv_preserved({name})", "holds")
                 res.add(f"C08.no_panic({name})", "violated" if any(o["status"] == "violated" and o["name"] == f"C08.no_panic({name})" for o in res.obligations) else "holds",
                         f"{len(sp) + len(fp)} stream paths")
+
+
+# ---------------------------------------------------------------------------------------------------------
+# L8: absolute oracles for the section-table driven accessors of the slice parser (C05-H2/H3, C20, C13 wiring)
+
+SHT = dict(SYMTAB=2, STRTAB=3, HASH=5, DYNAMIC=6, DYNSYM=11, GNU_HASH=0x6ffffff6, GNU_VERDEF=0x6ffffffd, GNU_VERNEED=0x6ffffffe, GNU_VERSYM=0x6fffffff)
+
+
+def shdr_terms(cls, st, i):
+    """field terms of section header i of the bounded table (dict name -> z3 term, 64/32 bit as in the native struct)"""
+    ci = 0 if cls == "ELF32" else 1
+    es = model.CLASS_SIZES["SectionHeader"][ci]
+    base = st["sh"].file_pos() + bv(i * es)
+    return {fname: model.field_term("SectionHeader", k, ci, base, w) for k, (fname, w) in enumerate(model.SHDR_FIELDS)}
+
+
+def num_sections(cls, st):
+    ci = 0 if cls == "ELF32" else 1
+    return z3.UDiv(st["sh"].len, bv(model.CLASS_SIZES["SectionHeader"][ci]))
+
+
+def range_fits(off, size, fl):
+    return z3.And(z3.BVAddNoOverflow(off, size, False), z3.ULE(off + size, fl))
+
+
+def slice_is(sl, off, size):
+    sl = model.as_slice(sl)
+    return z3.And(sl.file_pos() == off, sl.len == size)
+
+
+def first_of_type(cls, st, ty):
+    """list over j < K of (cond_j, terms_j): section j is the first one (table order) whose sh_type == ty"""
+    n = num_sections(cls, st)
+    out = []
+    prev = []
+    for j in range(K_TABLE):
+        t = shdr_terms(cls, st, j)
+        c = z3.And(z3.ULT(bv(j), n), t["sh_type"] == ty, *prev)
+        out.append((c, t))
+        prev.append(z3.Or(z3.UGE(bv(j), n), t["sh_type"] != ty))
+    none = z3.And(*prev) if prev else z3.BoolVal(True)
+    return out, none
+
+
+def linked(cls, st, link32):
+    """list over l < K of (cond, terms): sh_link designates section l of the table"""
+    n = num_sections(cls, st)
+    link = z3.ZeroExt(32, link32)
+    return [(z3.And(link == l, z3.ULT(bv(l), n)), shdr_terms(cls, st, l)) for l in range(K_TABLE)], z3.UGE(link, n)
+
+
+def lemma_L8(prog, res, classes=("ELF64",)):
+    for cls in classes:
+        ci = 0 if cls == "ELF32" else 1
+        symsize, dynsize = ((16, 8), (24, 16))[ci]
+        for (method, ty, entsz) in (("symbol_table", SHT["SYMTAB"], symsize), ("dynamic_symbol_table", SHT["DYNSYM"], symsize)):
+            name = f"{method}[{cls}]"
+            try:
+                bp, bsol, bst = run_file_method(prog, "bytes", method, cls, True, False, tag="o" + method[:5])
+            except sym.Unsupported as u:
+                res.add(f"L8.encode({name})", "inconclusive", str(u))
+                continue
+            res.stats["queries"] += bst["queries"]
+            res.stats["paths"] += bst["paths"]
+            solver = new_solver()
+            counts = dict(some=0, none=0, err=0)
+            for p in bp:
+                if p["status"] != "ok":
+                    res.add(f"C01.no_panic({name}, engine B)", "violated", p["status"])
+                    continue
+                st = p["env"]["tables"]
+                fl = p["env"]["file_len"]
+                firsts, none = first_of_type(cls, st, ty)
+                v = p["value"]
+                pc = p["pc"]
+                if is_ok(v) and v.f[0].variant == "None":
+                    counts["none"] += 1
+                    okv, mdl = valid(res, solver, pc, none)
+                    res.add(f"C20.none_iff_no_section_of_that_type({name})", "holds" if okv else "violated", model_str(mdl, 20), mdl)
+                elif is_ok(v):
+                    counts["some"] += 1
+                    tab, strs = v.f[0].f[0].f[0], v.f[0].f[0].f[1]
+                    alts = []
+                    for (c, t) in firsts:
+                        links, _oob = linked(cls, st, t["sh_link"])
+                        for (lc, lt) in links:
+                            alts.append(z3.And(c, lc, t["sh_entsize"] == entsz,
+                                               slice_is(tab.f[2], t["sh_offset"], t["sh_size"]), range_fits(t["sh_offset"], t["sh_size"], fl),
+                                               slice_is(strs.f[0], lt["sh_offset"], lt["sh_size"]), range_fits(lt["sh_offset"], lt["sh_size"], fl)))
+                    okv, mdl = valid(res, solver, pc, z3.Or(alts))
+                    res.add(f"C05.entsize_gate_and_designated_ranges({name})", "holds" if okv else "violated",
+                            "" if okv else f"result table={tab!r} strtab={strs!r}: {model_str(mdl, 20)}", mdl)
+                else:
+                    counts["err"] += 1
+                    bad = []
+                    for (c, t) in firsts:
+                        links, oob = linked(cls, st, t["sh_link"])
+                        link_bad = z3.Or([oob] + [z3.And(lc, z3.Not(range_fits(lt["sh_offset"], lt["sh_size"], fl))) for (lc, lt) in links])
+                        bad.append(z3.And(c, z3.Or(t["sh_entsize"] != entsz, z3.Not(range_fits(t["sh_offset"], t["sh_size"], fl)), link_bad)))
+                    okv, mdl = valid(res, solver, pc, z3.Or(bad))
+                    res.add(f"C05.err_only_when_gate_or_range_fails({name})", "holds" if okv else "violated", model_str(mdl, 20), mdl)
+            res.add(f"L8.witness.paths({name})", "holds" if all(counts[k] >= 1 for k in counts) else "inconclusive", str(counts))
+        # section_headers_with_strtab: the string table is the range of shdr[e_shstrndx] (or shdr[0].sh_link when SHN_XINDEX)
+        name = f"section_headers_with_strtab[{cls}]"
+        try:
+            bp, bsol, bst = run_file_method(prog, "bytes", "section_headers_with_strtab", cls, True, False, tag="ostrt")
+        except sym.Unsupported as u:
+            res.add(f"L8.encode({name})", "inconclusive", str(u))
+            bp = []
+        solver = new_solver()
+        for p in bp:
+            if p["status"] != "ok":
+                res.add(f"C01.no_panic({name}, engine B)", "violated", p["status"])
+                continue
+            st = p["env"]["tables"]
+            fl = p["env"]["file_len"]
+            ehdr = p["env"]["obj"].f[0]
+            shstrndx = ehdr.f[16].e
+            n = num_sections(cls, st)
+            t0 = shdr_terms(cls, st, 0)
+            idx = z3.If(shstrndx == 0xffff, z3.ZeroExt(32, t0["sh_link"]), z3.ZeroExt(48, shstrndx))
+            v = p["value"]
+            pc = p["pc"]
+            if is_ok(v):
+                strs = v.f[0].f[1]
+                if strs.variant == "None":
+                    okv, mdl = valid(res, solver, pc, shstrndx == 0)
+                    res.add(f"C05.no_strtab_iff_shstrndx_undef({name})", "holds" if okv else "violated", model_str(mdl, 20), mdl)
+                else:
+                    alts = [z3.And(idx == l, z3.ULT(bv(l), n), slice_is(strs.f[0].f[0], shdr_terms(cls, st, l)["sh_offset"], shdr_terms(cls, st, l)["sh_size"]),
+                                   range_fits(shdr_terms(cls, st, l)["sh_offset"], shdr_terms(cls, st, l)["sh_size"], fl)) for l in range(K_TABLE)]
+                    okv, mdl = valid(res, solver, pc, z3.And(shstrndx != 0, z3.Or(alts)))
+                    res.add(f"C05.shstrtab_is_range_of_designated_section({name})", "holds" if okv else "violated",
+                            "" if okv else f"strtab={strs!r}: {model_str(mdl, 20)}", mdl)
+            else:
+                bad = z3.And(shstrndx != 0, z3.Or([z3.UGE(idx, n)] + [z3.And(idx == l, z3.Not(range_fits(shdr_terms(cls, st, l)["sh_offset"], shdr_terms(cls, st, l)["sh_size"], fl))) for l in range(K_TABLE)]))
+                okv, mdl = valid(res, solver, pc, bad)
+                res.add(f"C05.strtab_err_only_when_index_or_range_bad({name})", "holds" if okv else "violated", model_str(mdl, 20), mdl)
+        # dynamic(): via the first SHT_DYNAMIC section (entsize gate), with BOTH tables present
+        name = f"dynamic[{cls},sections+segments]"
+        try:
+            bp, bsol, bst = run_file_method(prog, "bytes", "dynamic", cls, True, True, tag="odyn", scope=no_compressed_sections(cls))
+        except sym.Unsupported as u:
+            res.add(f"L8.encode({name})", "inconclusive", str(u))
+            bp = []
+        solver = new_solver()
+        for p in bp:
+            if p["status"] != "ok":
+                res.add(f"C01.no_panic({name}, engine B)", "violated", p["status"])
+                continue
+            st = p["env"]["tables"]
+            fl = p["env"]["file_len"]
+            firsts, none = first_of_type(cls, st, SHT["DYNAMIC"])
+            v = p["value"]
+            pc = p["pc"]
+            if is_ok(v) and v.f[0].variant == "Some":
+                tab = v.f[0].f[0]
+                alts = [z3.And(c, t["sh_entsize"] == dynsize, slice_is(tab.f[2], t["sh_offset"], t["sh_size"])) for (c, t) in firsts]
+                okv, mdl = valid(res, solver, pc, z3.Or(alts))
+                res.add(f"C05.dynamic_section_entsize_gate({name})", "holds" if okv else "violated",
+                        "" if okv else f"dynamic table {tab!r} returned: {model_str(mdl, 20)}", mdl)
+            elif is_ok(v):
+                okv, mdl = valid(res, solver, pc, none)
+                res.add(f"C20.dynamic_none_iff_no_dynamic_section({name})", "holds" if okv else "violated", model_str(mdl, 20), mdl)
+
+
+# ---------------------------------------------------------------------------------------------------------
+# L6 (C20): find_common_data agrees with the targeted accessors; L9 (C13): symbol_version_table wiring oracle
+
+KINDS = [SHT["SYMTAB"], SHT["DYNSYM"], SHT["DYNAMIC"], SHT["HASH"], SHT["GNU_HASH"], SHT["GNU_VERSYM"], SHT["GNU_VERNEED"], SHT["GNU_VERDEF"]]
+
+
+def one_section_per_kind(cls, extra=None):
+    """the property's scoping: at most one section of each kind; optionally no SHF_COMPRESSED; PT_DYNAMIC only with .dynamic"""
+    def scope(ctx, obj, st):
+        cs = []
+        if st["sh"] is not None:
+            n = z3.simplify(num_sections(cls, st)).as_long()
+            ts = [shdr_terms(cls, st, i) for i in range(n)]
+            for i in range(n):
+                for j in range(i + 1, n):
+                    cs.append(z3.Or(ts[i]["sh_type"] != ts[j]["sh_type"], z3.And([ts[i]["sh_type"] != k for k in KINDS])))
+            if st["ph"] is not None:
+                ci = 0 if cls == "ELF32" else 1
+                pes = model.CLASS_SIZES["ProgramHeader"][ci]
+                m = z3.simplify(z3.UDiv(st["ph"].len, bv(pes))).as_long()
+                has_ptdyn = z3.Or([model.field_term("ProgramHeader", 0, ci, st["ph"].file_pos() + bv(i * pes), 32) == 2 for i in range(m)])
+                has_shdyn = z3.Or([t["sh_type"] == SHT["DYNAMIC"] for t in ts])
+                cs.append(z3.Implies(has_ptdyn, has_shdyn))
+        if extra is not None:
+            cs.append(extra(ctx, obj, st))
+        return z3.And(cs + [z3.BoolVal(True)])
+    return scope
+
+
+def opt_equal(a, b):
+    """Option<X> vs Option<X> content equality"""
+    return equal_vals(a, b)
+
+
+def lemma_L6(prog, res, cls="ELF64"):
+    scope = one_section_per_kind(cls, extra=no_compressed_sections(cls))
+    try:
+        cp, csol, cst = run_file_method(prog, "bytes", "find_common_data", cls, True, True, tag="fcd", scope=scope)
+        targeted = {}
+        for m in ("symbol_table", "dynamic_symbol_table", "dynamic"):
+            targeted[m] = run_file_method(prog, "bytes", m, cls, True, True, tag="t" + m[:6], scope=scope)
+    except sym.Unsupported as u:
+        res.add(f"L6.encode(find_common_data[{cls}])", "inconclusive", str(u))
+        return
+    res.stats["queries"] += cst["queries"]
+    res.stats["paths"] += cst["paths"]
+    solver = new_solver()
+    ok_c = [p for p in cp if p["status"] == "ok" and is_ok(p["value"])]
+    for p in cp:
+        if p["status"] != "ok":
+            res.add(f"C01.no_panic(find_common_data[{cls}], engine B)", "violated", p["status"])
+    for m, (tp, tsol, tst) in targeted.items():
+        res.stats["queries"] += tst["queries"]
+        res.stats["paths"] += tst["paths"]
+        name = f"find_common_data~{m}[{cls}]"
+        joint = 0
+        for pc_ in ok_c:
+            cd = pc_["value"].f[0]      # CommonElfData: symtab, symtab_strs, dynsyms, dynsyms_strs, dynamic, sysv_hash, gnu_hash
+            for pt in tp:
+                if pt["status"] != "ok" or not is_ok(pt["value"]):
+                    continue
+                pc = pc_["pc"] + pt["pc"]
+                res.stats["queries"] += 1
+                if solver.check(*pc) != z3.sat:
+                    continue
+                joint += 1
+                tv = pt["value"].f[0]       # Option<...>
+                if m in ("symbol_table", "dynamic_symbol_table"):
+                    a_tab, a_str = (cd.f[0], cd.f[1]) if m == "symbol_table" else (cd.f[2], cd.f[3])
+                    if tv.variant == "None":
+                        claim = z3.BoolVal(a_tab.variant == "None" and a_str.variant == "None")
+                    elif a_tab.variant == "None" or a_str.variant == "None":
+                        claim = z3.BoolVal(False)
+                    else:
+                        claim = z3.And(equal_vals(a_tab.f[0], tv.f[0].f[0]), equal_vals(a_str.f[0], tv.f[0].f[1]))
+                else:
+                    a = cd.f[4]
+                    if tv.variant == "None":
+                        claim = z3.BoolVal(a.variant == "None")
+                    elif a.variant == "None":
+                        claim = z3.BoolVal(False)
+                    else:
+                        claim = equal_vals(a.f[0], tv.f[0])
+                okv, mdl = valid(res, solver, pc, claim)
+                res.add(f"C20.common_data_equals_targeted({name})", "holds" if okv else "violated",
+                        "" if okv else f"{m}()={tv!r} vs find_common_data={[cd.f[0], cd.f[1]] if m == 'symbol_table' else ([cd.f[2], cd.f[3]] if m == 'dynamic_symbol_table' else cd.f[4])!r}: {model_str(mdl, 16)}"[:1200], mdl)
+        res.add(f"L6.witness.joint_ok_pairs({name})", "holds" if joint >= 3 else "inconclusive", f"{joint} joint Ok/Ok path pairs")
+    # dynamic() through PT_DYNAMIC (no section table): the first PT_DYNAMIC segment's [p_offset, p_offset+p_filesz)
+    try:
+        dp, dsol, dst = run_file_method(prog, "bytes", "dynamic", cls, False, True, tag="dseg")
+    except sym.Unsupported as u:
+        res.add(f"L6.encode(dynamic via segments[{cls}])", "inconclusive", str(u))
+        return
+    ci = 0 if cls == "ELF32" else 1
+    pes = model.CLASS_SIZES["ProgramHeader"][ci]
+    for p in dp:
+        if p["status"] != "ok":
+            res.add(f"C01.no_panic(dynamic[{cls},segments], engine B)", "violated", p["status"])
+            continue
+        v = p["value"]
+        st = p["env"]["tables"]
+        m_ = z3.simplify(z3.UDiv(st["ph"].len, bv(pes))).as_long()
+        prev = []
+        alts = []
+        for j in range(m_):
+            base = st["ph"].file_pos() + bv(j * pes)
+            ty = model.field_term("ProgramHeader", 0, ci, base, 32)
+            off = model.field_term("ProgramHeader", 1, ci, base, 64)
+            fsz = model.field_term("ProgramHeader", 4, ci, base, 64)
+            alts.append((z3.And(ty == 2, *prev), off, fsz))
+            prev.append(ty != 2)
+        if is_ok(v) and v.f[0].variant == "Some":
+            tab = v.f[0].f[0]
+            okv, mdl = valid(res, dsol, p["pc"], z3.Or([z3.And(c, slice_is(tab.f[2], off, fsz)) for (c, off, fsz) in alts]))
+            res.add(f"C20.dynamic_via_PT_DYNAMIC_is_[p_offset,p_filesz)({cls})", "holds" if okv else "violated", model_str(mdl, 16), mdl)
+        elif is_ok(v):
+            okv, mdl = valid(res, dsol, p["pc"], z3.And(prev))
+            res.add(f"C20.dynamic_none_iff_no_PT_DYNAMIC({cls})", "holds" if okv else "violated", model_str(mdl, 16), mdl)
+
+
+def lemma_L9(prog, res, cls="ELF64"):
+    """symbol_version_table: the table handed out is SymbolVersionTable::new over exactly the designated ranges"""
+    scope = one_section_per_kind(cls)
+    name = f"symbol_version_table[{cls}]"
+    try:
+        bp, bsol, bst = run_file_method(prog, "bytes", "symbol_version_table", cls, True, False, tag="svt", scope=scope)
+    except sym.Unsupported as u:
+        res.add(f"L9.encode({name})", "inconclusive", str(u))
+        return
+    res.stats["queries"] += bst["queries"]
+    res.stats["paths"] += bst["paths"]
+    solver = new_solver()
+    counts = dict(some=0, none=0, err=0)
+    for p in bp:
+        if p["status"] != "ok":
+            res.add(f"C01.no_panic({name}, engine B)", "violated", p["status"])
+            continue
+        st = p["env"]["tables"]
+        fl = p["env"]["file_len"]
+        v = p["value"]
+        pc = p["pc"]
+        n = z3.simplify(num_sections(cls, st)).as_long()
+        ts = [shdr_terms(cls, st, i) for i in range(n)]
+
+        def the(ty):
+            return [(t["sh_type"] == ty, t) for t in ts], z3.And([t["sh_type"] != ty for t in ts])
+        vs_alts, vs_none = the(SHT["GNU_VERSYM"])
+        if is_ok(v) and v.f[0].variant == "None":
+            counts["none"] += 1
+            okv, mdl = valid(res, solver, pc, vs_none)
+            res.add(f"C13.none_iff_no_versym_section({name})", "holds" if okv else "violated", model_str(mdl, 16), mdl)
+            continue
+        if not is_ok(v):
+            counts["err"] += 1
+            continue
+        counts["some"] += 1
+        tbl = v.f[0].f[0]     # SymbolVersionTable { version_ids, verneeds, verdefs }
+        ids, needs, defs = tbl.f[0], tbl.f[1], tbl.f[2]
+        claim = z3.Or([z3.And(c, t["sh_entsize"] == 2, slice_is(ids.f[2], t["sh_offset"], t["sh_size"]), range_fits(t["sh_offset"], t["sh_size"], fl)) for (c, t) in vs_alts])
+        okv, mdl = valid(res, solver, pc, claim)
+        res.add(f"C13.versym_table_is_designated_range_with_entsize_2({name})", "holds" if okv else "violated", model_str(mdl, 16), mdl)
+        for (label, opt, ty) in (("verneed", needs, SHT["GNU_VERNEED"]), ("verdef", defs, SHT["GNU_VERDEF"])):
+            alts, none = the(ty)
+            if opt.variant == "None":
+                okv, mdl = valid(res, solver, pc, none)
+                res.add(f"C13.{label}_absent_iff_no_section({name})", "holds" if okv else "violated", model_str(mdl, 16), mdl)
+                continue
+            it, strs = opt.f[0].f[0], opt.f[0].f[1]     # iterator {endian, class, count, data, offset}, StringTable {data}
+            cs = []
+            for (c, t) in alts:
+                links, _oob = linked(cls, st, t["sh_link"])
+                for (lc, lt) in links:
+                    cs.append(z3.And(c, lc, it.f[2].e == z3.ZeroExt(32, t["sh_info"]), it.f[4].e == 0,
+                                     slice_is(it.f[3], t["sh_offset"], t["sh_size"]), slice_is(strs.f[0], lt["sh_offset"], lt["sh_size"]),
+                                     range_fits(t["sh_offset"], t["sh_size"], fl), range_fits(lt["sh_offset"], lt["sh_size"], fl)))
+            okv, mdl = valid(res, solver, pc, z3.Or(cs))
+            res.add(f"C13.{label}_iterator_wired_to_section_info_and_link({name})", "holds" if okv else "violated",
+                    "" if okv else f"iterator={it!r} strtab={strs!r}: {model_str(mdl, 16)}"[:900], mdl)
+    res.add(f"L9.witness.paths({name})", "holds" if all(counts[k] >= 1 for k in counts) else "inconclusive", str(counts))
